@@ -480,6 +480,16 @@ pub fn run(ctx: &Ctx) -> Report {
             cases.push(c);
         }
     }
+    // long runs (buffer-size classes of any internal coalescing: 255/256/257/1023/1024/1025/5000 bytes), plain and with an escape at the end
+    for f in fields {
+        for n in [255usize, 256, 257, 1023, 1024, 1025, 5000] {
+            for tail in ["", "\"", "é"] {
+                let mut c = base.clone();
+                set(&mut c, f, &format!("{}{}", "m".repeat(n), tail));
+                cases.push(c);
+            }
+        }
+    }
     let short = strings(&alpha, 1);
     for (i, f1) in fields.iter().enumerate() {
         for f2 in &fields[i + 1..] {
